@@ -1,8 +1,13 @@
 (** C16 — a time value denotes the same instant on every path.
     This file contains only the property theorems, each closed by [exact],
-    with [Print Assumptions] beneath. Models: Model/Time.v; proofs: Proofs/TimeProofs.v. *)
+    with [Print Assumptions] beneath. Models: Model/Time.v, Model/TimePrint.v (printers), Model/TimeSites.v (call sites),
+    Base/Civil.v; proofs: Proofs/TimeProofs.v, Proofs/CivilProofs.v, Proofs/TimeIsoProofs.v,
+    Proofs/TimeSitesProofs.v. *)
 From Coq Require Import ZArith.
-From Snel Require Import Model.Time Proofs.TimeProofs.
+From Coq Require Import NArith List Bool.
+From Snel Require Import Base.Bytes Base.Civil Gen.Params Model.Time Model.TimePrint Model.TimeSites
+                         Proofs.TimeProofs Proofs.CivilProofs Proofs.TimeIsoProofs Proofs.TimeSitesProofs.
+Import ListNotations.
 Open Scope Z_scope.
 
 (** Integer spellings (seconds / ms / µs / ns inside their digit bands) of the
@@ -25,3 +30,234 @@ Theorem C16_out_of_range_rejected : forall n,
   10 ^ 19 <= Z.abs n -> normalize_integer_epoch n = None.
 Proof. exact normalize_reject. Qed.
 Print Assumptions C16_out_of_range_rejected.
+
+(** ---- ISO-8601 / RFC 3339 spellings ---- *)
+
+(** Hinnant's calendar algorithms are mutually inverse on all of Z. *)
+Theorem C16_civil_roundtrip : forall z,
+  let '(y, m, d) := civil_from_days z in days_from_civil y m d = z.
+Proof. exact civil_roundtrip. Qed.
+Print Assumptions C16_civil_roundtrip.
+
+Theorem C16_civil_from_days_valid : forall z,
+  let '(y, m, d) := civil_from_days z in valid_ymd y m d = true.
+Proof. exact civil_from_days_valid. Qed.
+Print Assumptions C16_civil_from_days_valid.
+
+Theorem C16_civil_of_days_from_civil : forall y m d,
+  valid_ymd y m d = true -> civil_from_days (days_from_civil y m d) = (y, m, d).
+Proof. exact civil_of_days_from_civil. Qed.
+Print Assumptions C16_civil_of_days_from_civil.
+
+(** The model of chrono's RFC 3339 parser inverts the printer: for every four-digit
+    year, valid date, time of day (second 60 = leap-second spelling), any digit string
+    as fraction (absent when empty), separator T / t / space, offset |off| <= 23:59
+    written Z / z / +HH:MM / -HH:MM / U+2212 HH:MM. *)
+Theorem C16_parse_print_rfc3339_gen : forall y m d h mi s frac sep off tz,
+  0 <= y <= 9999 -> valid_ymd y m d = true ->
+  0 <= h < 24 -> 0 <= mi < 60 -> 0 <= s <= 60 ->
+  forallb is_digit frac = true -> sep_ok sep = true ->
+  Z.abs off <= 1439 -> tz_ok off tz ->
+  parse_rfc3339 (print_rfc3339_gen y m d h mi s frac sep off tz)
+  = Some (days_from_civil y m d * 86400 + h * 3600 + mi * 60 + Z.min s 59 - off * 60).
+Proof. exact parse_print_rfc3339_gen. Qed.
+Print Assumptions C16_parse_print_rfc3339_gen.
+
+Theorem C16_parse_print_rfc3339 : forall y m d h mi s frac sep off (zulu : bool),
+  0 <= y <= 9999 -> valid_ymd y m d = true ->
+  0 <= h < 24 -> 0 <= mi < 60 -> 0 <= s <= 60 ->
+  forallb is_digit frac = true -> sep_ok sep = true ->
+  Z.abs off <= 1439 -> (zulu = true -> off = 0) ->
+  parse_rfc3339 (print_rfc3339 y m d h mi s frac sep off zulu)
+  = Some (days_from_civil y m d * 86400 + h * 3600 + mi * 60 + Z.min s 59 - off * 60).
+Proof. exact parse_print_rfc3339. Qed.
+Print Assumptions C16_parse_print_rfc3339.
+
+(** All ISO spellings of one instant [t] (whole seconds; the sub-second digits are
+    [frac]) — any offset, any fraction, any separator, any offset notation — denote
+    [t] = floor of the instant.  [t] ranges over 0000-01-02T00:00:00Z .. 9999-12-30T23:59:59Z
+    (the four-digit years with a day of margin for the offset), negative instants included. *)
+Theorem C16_iso_spellings_agree : forall t frac sep off tz,
+  iso_t_lo <= t <= iso_t_hi ->
+  forallb is_digit frac = true -> sep_ok sep = true ->
+  Z.abs off <= 1439 -> tz_ok off tz ->
+  parse_rfc3339 (print_instant_gen t frac sep off tz) = Some t.
+Proof. exact iso_spellings_agree. Qed.
+Print Assumptions C16_iso_spellings_agree.
+
+(** ... and through the entry point [parse_str_to_epoch_seconds] (RFC 3339 is tried
+    first), with ASCII white space around the literal. *)
+Theorem C16_iso_string_agree : forall t frac sep off tz ws1 ws2,
+  iso_t_lo <= t <= iso_t_hi ->
+  forallb is_digit frac = true -> sep_ok sep = true ->
+  Z.abs off <= 1439 -> tz_ok off tz ->
+  forallb is_ascii_ws ws1 = true -> forallb is_ascii_ws ws2 = true ->
+  parse_str_to_epoch_seconds (ws1 ++ print_instant_gen t frac sep off tz ++ ws2) = Some t.
+Proof. exact iso_string_agree. Qed.
+Print Assumptions C16_iso_string_agree.
+
+(** The ISO spelling and the in-band integer spellings (s / ms / us / ns) of the same
+    instant normalise to the same second. *)
+Theorem C16_iso_and_integer_agree : forall t frac sep off tz ws1 ws2 rms rus rns,
+  iso_t_lo <= t <= iso_t_hi ->
+  forallb is_digit frac = true -> sep_ok sep = true ->
+  Z.abs off <= 1439 -> tz_ok off tz ->
+  forallb is_ascii_ws ws1 = true -> forallb is_ascii_ws ws2 = true ->
+  0 <= rms < 1000 -> 0 <= rus < 1000000 -> 0 <= rns < 1000000000 ->
+  let iso := parse_str_to_epoch_seconds (ws1 ++ print_instant_gen t frac sep off tz ++ ws2) in
+  iso = Some t /\
+  (Z.abs t < 10 ^ 11 -> normalize_integer_epoch t = iso) /\
+  (10 ^ 11 <= Z.abs (t * 1000 + rms) < 10 ^ 14 ->
+     normalize_integer_epoch (t * 1000 + rms) = iso) /\
+  (10 ^ 14 <= Z.abs (t * 1000000 + rus) < 10 ^ 16 ->
+     normalize_integer_epoch (t * 1000000 + rus) = iso) /\
+  (10 ^ 16 <= Z.abs (t * 1000000000 + rns) < 10 ^ 19 ->
+     normalize_integer_epoch (t * 1000000000 + rns) = iso).
+Proof. exact iso_and_integer_agree. Qed.
+Print Assumptions C16_iso_and_integer_agree.
+
+(** Date-only spelling YYYY-MM-DD = midnight UTC of that day. *)
+Theorem C16_parse_print_date : forall y m d,
+  0 <= y <= 9999 -> valid_ymd y m d = true ->
+  parse_date_only (print_date y m d) = Some (days_from_civil y m d * 86400).
+Proof. exact parse_print_date. Qed.
+Print Assumptions C16_parse_print_date.
+
+Theorem C16_date_string_agree : forall y m d,
+  0 <= y <= 9999 -> valid_ymd y m d = true ->
+  parse_str_to_epoch_seconds (print_date y m d) = Some (days_from_civil y m d * 86400).
+Proof. exact date_string_agree. Qed.
+Print Assumptions C16_date_string_agree.
+
+(** ---- the same instant on every path: the call sites (Model/TimeSites.v) ---- *)
+
+(** For every string literal, the payload normaliser, the WHERE row filter, the SINCE row
+    filter, the planner's literal rewriting, the zone pruner and the materialised-query
+    SINCE comparison read the same second — the pruner sees [pruner_view z], which is
+    [max z 0] in the pinned tree (class NegativeInstantClampedByPruner) and [z] once
+    [tsite_pruner_clamps] is regenerated as false; the materialiser clamps at 0.  A literal no
+    parser accepts is an error for the payload, a string condition for WHERE, ignored for
+    SINCE, left alone by the planner, and the default value for the pruner unless the u64
+    fall-back takes it, in which case it wraps negative (class UnparsableSinceU64WrapsNegative). *)
+Theorem C16_sites_agree : forall (s : bytes) (ft : ftype),
+  temporal_ft ft ->
+  match parse_str_to_epoch_seconds s with
+  | Some z =>
+      site_payload ft (Some (TStr s)) = PNum z
+      /\ site_where (TStr s) = CNum z
+      /\ site_since_row s = SinceNum z
+      /\ site_filter ft (TStr s) = SInt z
+      /\ pruner_ts (site_since_filter s) = pruner_view z
+      /\ pruner_ts (site_filter ft (TStr s)) = pruner_view z
+      /\ parse_since_epoch s = Some (Z.max z 0)
+  | None =>
+      site_payload ft (Some (TStr s)) = PErr
+      /\ site_where (TStr s) = CStr
+      /\ site_since_row s = SinceIgnored
+      /\ site_filter ft (TStr s) = SUtf8 s
+      /\ (pruner_ts (SUtf8 s) = tsite_pruner_unparsable
+          \/ (tsite_pruner_u64_fallback = true /\ wrap_i64 (pruner_ts (SUtf8 s)) < 0))
+  end.
+Proof. exact sites_agree. Qed.
+Print Assumptions C16_sites_agree.
+
+Theorem C16_sites_agree_nonneg : forall s ft z,
+  temporal_ft ft -> parse_str_to_epoch_seconds s = Some z -> 0 <= z ->
+  site_payload ft (Some (TStr s)) = PNum z
+  /\ site_where (TStr s) = CNum z
+  /\ site_since_row s = SinceNum z
+  /\ site_filter ft (TStr s) = SInt z
+  /\ pruner_ts (SUtf8 s) = z
+  /\ pruner_ts (SInt z) = z
+  /\ parse_since_epoch s = Some z.
+Proof. exact sites_agree_nonneg. Qed.
+Print Assumptions C16_sites_agree_nonneg.
+
+(** The `parse::<u64>()` fall-back of the pruner can only produce values that wrap negative. *)
+Theorem C16_u64_fallback_wraps_negative : forall s u,
+  parse_str_to_epoch_seconds s = None -> parse_u64_str s = Some u ->
+  10 ^ 19 <= u <= u64_max /\ wrap_i64 u < 0.
+Proof. exact u64_fallback_wraps_negative. Qed.
+Print Assumptions C16_u64_fallback_wraps_negative.
+
+(** Outside the known classes (literal instant and all stamps of the zone in [0, 2^32),
+    operator =, >, >=, <, <=) the zone pruner keeps every zone that holds an event whose
+    stored instant satisfies the comparison — over the artifacts the temporal builder writes. *)
+Theorem C16_prune_sound_outside_known : forall flag op v zones z t,
+  0 <= v < u32_mod ->
+  In z zones -> 0 <= zmin z -> zmax z < u32_mod ->
+  In t (z_ts z) -> cmp_holds op t v ->
+  exists ids, prune flag op (SInt v) zones = Some ids /\ In (z_id z) ids.
+Proof. exact prune_sound_in_range. Qed.
+Print Assumptions C16_prune_sound_outside_known.
+
+Theorem C16_prune_sound_literal : forall flag op s v zones z t,
+  parse_str_to_epoch_seconds s = Some v ->
+  0 <= v < u32_mod ->
+  In z zones -> 0 <= zmin z -> zmax z < u32_mod ->
+  In t (z_ts z) -> cmp_holds op t v ->
+  exists ids, prune flag op (SUtf8 s) zones = Some ids /\ In (z_id z) ids.
+Proof. exact prune_sound_literal. Qed.
+Print Assumptions C16_prune_sound_literal.
+
+(** The same statement for the code shapes of fixes/C16-pre-epoch-time-values.diff (zones
+    always registered, range clamped at 0; signed literal, only the calendar lookup clamped):
+    every literal instant below 2^32 — negative ones included — and every zone whose stamps are
+    below 2^32 — pre-epoch stamps included.  It becomes the statement about the code as soon
+    as tools/params/p11_timesites.py reads those shapes from the Rust text. *)
+Theorem C16_prune_sound_after_fix : forall fb dflt flag op v zones z t,
+  - 2 ^ 63 <= v < u32_mod ->
+  In z zones -> zmax z < u32_mod ->
+  In t (z_ts z) -> cmp_holds op t v ->
+  exists ids, prune_gen false false fb dflt flag op (SInt v) zones = Some ids /\ In (z_id z) ids.
+Proof. exact prune_sound_after_fix. Qed.
+Print Assumptions C16_prune_sound_after_fix.
+
+(** ... and the pruner does lose matching zones in each known class (concrete witnesses). *)
+Theorem C16_prune_refuted :
+  (* PreEpochZoneNotInCalendar *)
+  prune false OEq (SInt 500) [mkZone 1 [0; 0]; mkZone 4 [-5; 500]] = Some []
+  (* NegativeInstantClampedByPruner *)
+  /\ prune false OGt (SInt (-1)) [mkZone 1 [0; 0]; mkZone 2 [10; 20]] = Some [2%N]
+  (* CalendarBucketWrapsAfter2106 *)
+  /\ prune false OGte (SInt 315532800) [mkZone 3 [4295399296; 4295399297]] = Some []
+  (* UnparsableSinceU64WrapsNegative *)
+  /\ (site_since_row [49;48;48;48;48;48;48;48;48;48;48;48;48;48;48;48;48;48;48;48]%N = SinceIgnored
+      /\ prune false OGte (SUtf8 [49;48;48;48;48;48;48;48;48;48;48;48;48;48;48;48;48;48;48;48]%N)
+           [mkZone 1 [0; 0]; mkZone 2 [10; 20]] = Some [])
+  (* TemporalNeqPrunesAllZones *)
+  /\ (forall flag sv zones, prune flag ONeq sv zones = None).
+Proof.
+  exact (conj (proj1 pre_epoch_zone_refuted)
+        (conj (proj1 (proj2 negative_literal_refuted))
+        (conj (proj1 bucket_wrap_refuted)
+        (conj unparsable_since_refuted neq_refuted)))).
+Qed.
+Print Assumptions C16_prune_refuted.
+
+(** A numeric string reaches [normalize_integer_epoch] whatever its value (the RFC 3339
+    and date-only branches reject every optionally signed digit string). *)
+Theorem C16_decimal_string_is_integer : forall n,
+  parse_str_to_epoch_seconds (dec_of_Z n) = normalize_integer_epoch n.
+Proof. exact decimal_string_is_integer. Qed.
+Print Assumptions C16_decimal_string_is_integer.
+
+(** All STRING spellings of one instant agree: the ISO spelling with any offset / fraction /
+    separator / padding and the decimal strings of its s / ms / us / ns counts (inside their
+    digit bands) all go to [Some t] through [parse_str_to_epoch_seconds]. *)
+Theorem C16_all_string_spellings_agree : forall t frac sep off tz ws1 ws2 rms rus rns,
+  iso_t_lo <= t <= iso_t_hi ->
+  forallb is_digit frac = true -> sep_ok sep = true ->
+  Z.abs off <= 1439 -> tz_ok off tz ->
+  forallb is_ascii_ws ws1 = true -> forallb is_ascii_ws ws2 = true ->
+  0 <= rms < 1000 -> 0 <= rus < 1000000 -> 0 <= rns < 1000000000 ->
+  parse_str_to_epoch_seconds (ws1 ++ print_instant_gen t frac sep off tz ++ ws2) = Some t /\
+  (Z.abs t < 10 ^ 11 -> parse_str_to_epoch_seconds (dec_of_Z t) = Some t) /\
+  (10 ^ 11 <= Z.abs (t * 1000 + rms) < 10 ^ 14 ->
+     parse_str_to_epoch_seconds (dec_of_Z (t * 1000 + rms)) = Some t) /\
+  (10 ^ 14 <= Z.abs (t * 1000000 + rus) < 10 ^ 16 ->
+     parse_str_to_epoch_seconds (dec_of_Z (t * 1000000 + rus)) = Some t) /\
+  (10 ^ 16 <= Z.abs (t * 1000000000 + rns) < 10 ^ 19 ->
+     parse_str_to_epoch_seconds (dec_of_Z (t * 1000000000 + rns)) = Some t).
+Proof. exact all_string_spellings_agree. Qed.
+Print Assumptions C16_all_string_spellings_agree.
